@@ -49,7 +49,7 @@ OPS = tuple(p + o for p in ("sm_", "smr_") for o in BASE_OPS)
 LEAN = ["Ymq.Props.C14Small"]
 AUDIT = "Ymq.Audit.C14Small"
 # >>>>>>>>>> PLACEHOLDER: space separated names of the theorems of namespace Ymq.C14Small (to be filled in) <<<<<<<<<<
-THEOREM_NAMES = ("rank_spec rank_profile_independent pseudoinverse_spec pseudoinverse_no_panic pseudoinverse_sound submatrix_spec pipeline_spec rank_reverse_spec inverse_spec inverse_some_iff inverse_profile_independent transpose_spec mask_spec reverse_spec symmetric_spec identity_spec genblock_never_ends genblock_accepts mul_aab_opt_spec gram_rank_le_cube genblock_never_ends_hang_rule genblock_never_ends_low_rank genblock_never_ends_witness lanczos_init_well_formed lanczos_step_no_panic_release lanczos_step_checked_orthogonal lanczos_init_invariant lanczos_step_no_panic_checked lanczos_invariant rank_not_greedy pseudoinverse_unmasked_counterwitness pipeline_nonsymmetric_counterwitness")
+THEOREM_NAMES = ("rank_spec rank_profile_independent pseudoinverse_spec pseudoinverse_no_panic pseudoinverse_sound submatrix_spec pipeline_spec rank_reverse_spec inverse_spec inverse_some_iff inverse_profile_independent transpose_spec mask_spec reverse_spec symmetric_spec identity_spec genblock_never_ends genblock_accepts mul_aab_opt_spec gram_rank_le_cube genblock_never_ends_hang_rule genblock_never_ends_low_rank genblock_never_ends_witness lanczos_init_well_formed lanczos_step_no_panic_release lanczos_step_checked_orthogonal lanczos_init_invariant lanczos_step_no_panic_checked lanczos_invariant lanczos_loop_no_panic_release lanczos_loop_no_panic_unpurged rank_not_greedy pseudoinverse_unmasked_counterwitness pipeline_nonsymmetric_counterwitness")
 THEOREMS = ["Ymq.C14Small." + t for t in THEOREM_NAMES.split()]
 
 N = 64
@@ -1289,7 +1289,10 @@ CLAIM = ("Lean theorems, for EVERY size n (the code has n = 64; n <= 256 where t
          "left inverse = right inverse on the S x S block). NOT proved: the converse of the hang rule (an admissible block exists when "
          "rank((B^T B)^3) >= 64: classification of symmetric bilinear forms over GF(2)); for the loop-level statement the three-term "
          "property as a consequence of the invariant (Montgomery's argument for the blocks no longer projected; the base case of the "
-         "invariant is proved: lanczos_init_invariant); it is sampled by K on every iteration of real runs and checked pairwise by the oracle.")
+         "invariant is proved: lanczos_init_invariant); loop level: the release loop with fuel never panics (lanczos_loop_no_panic_release) and "
+         "the checked loop never panics - all assertions of every iteration and after the loop hold - until the first state where a block "
+         "is no longer projected (lanczos_loop_no_panic_unpurged); beyond the first purge it is sampled by K on every iteration of real runs "
+         "and checked pairwise by the oracle.")
 LEVEL_NOTE = ("The theorems are about the model; the K stream ties it to the code in both profiles (sm_* against the checked build, smr_* "
               "against the release build, panics included); genblock is tied through the recorded stream of random blocks. The Python oracle "
               "judges every implementation answer inside the documented domains by its own elimination.")
